@@ -459,6 +459,9 @@ func c18ParseConcurrent(c *mon.Ctx) {
 			sim := simkernel.New(uint32(gi + 1))
 			cl := &libaudit.AuditClient{Netlink: sim}
 			<-start
+			var kept *libaudit.RawAuditMessage
+			var keptType uint16
+			var keptLen int
 			for i := 0; i < rounds; i++ {
 				typ := uint16(1300 + (gi*131+i)%900)
 				text := fmt.Sprintf("audit(1.000:%d): client=%d round=%d %s", i, gi, i, strings.Repeat("x", (gi*7+i)%90))
@@ -475,6 +478,15 @@ func c18ParseConcurrent(c *mon.Ctx) {
 					}
 					return
 				}
+				// the message returned by the PREVIOUS call is the caller's: its type and the extent of its data do
+				// not change when the client receives again (only the bytes of Data live in the reused buffer)
+				if kept != nil && (uint16(kept.Type) != keptType || len(kept.Data) != keptLen) {
+					if bad.Add(1) <= 3 {
+						c.Violation("earlier-message-changed", fmt.Sprintf("client %d round %d: the message returned by the previous Receive had type %d and %d bytes of data; after this Receive it reads type %d and %d bytes (every Receive must return a message of its own)", gi, i, keptType, keptLen, kept.Type, len(kept.Data)), &c18Case{Kind: "parse-concurrent", Dgram: d})
+					}
+					return
+				}
+				kept, keptType, keptLen = raw, typ, len(text)
 			}
 		}(gi)
 	}
@@ -753,7 +765,7 @@ func c18Run(c *mon.Ctx) {
 func init() {
 	register(&mon.CheckSpec{
 		ID: "C18", Level: "exploration",
-		Rule: "cases = (a,c) requests sent with NetlinkClient.Send on a real NETLINK_ROUTE socket - types 0..15 with NLM_F_ACK (header-only echo) and random types in 256..65535 (never 16..255: live rtnetlink operations), flags = any 16 bits | NLM_F_REQUEST (and any 16 bits | NLM_F_ACK without NLM_F_REQUEST: acknowledged unprocessed, header echoed), payload lengths 0..8970 (every 37th quick, every length thorough) plus every length 0..64, random short payloads, and clients whose caller-supplied read buffer the reply fills exactly or with 1/4/64 bytes to spare - (most through a second client opened while a first one is open, so the socket's port id differs from the process id) whose NLMSG_ERROR reply, read back with Receive, carries the request as the kernel saw it (length, type, flags, port id, sequence = returned value, payload bytes); (b) N in {2,4,16} goroutines x M sends on one client: per-goroutine increasing, globally distinct, and the recorded {call, return, value} history checked with porcupine against a strictly increasing counter model (direct interval check when porcupine gives up), and a storm of 12 senders beside 6 goroutines whose sends the kernel refuses (distinct and per-goroutine increasing only); (d) datagrams of every length 0..64 and random longer ones, arbitrary and ACK-shaped contents, unicast and multicast from a second user-space netlink socket (NETLINK_ROUTE as root, NETLINK_USERSOCK): Receive must return an error and no message, and a later kernel reply must still be received; (e) AuditClient.Receive over the simulated Netlink with datagrams of every length 0..64 and random longer ones ending at a PROT_NONE page; (f) eight AuditClients, each with its own transport and goroutine, receiving at the same time: each gets the type and payload of its own datagram; (g) a client bound to an otherwise unused multicast group sends NLMSG_NOOP requests while a second socket in the same group listens: it must receive nothing (requests are addressed to the kernel only). Runs under the race detector; ASan in thorough. distinct_nontrivial = distinct frames, spoofed datagrams, parse inputs and sequence histories.",
+		Rule: "cases = (a,c) requests sent with NetlinkClient.Send on a real NETLINK_ROUTE socket - types 0..15 with NLM_F_ACK (header-only echo) and random types in 256..65535 (never 16..255: live rtnetlink operations), flags = any 16 bits | NLM_F_REQUEST (and any 16 bits | NLM_F_ACK without NLM_F_REQUEST: acknowledged unprocessed, header echoed), payload lengths 0..8970 (every 37th quick, every length thorough) plus every length 0..64, random short payloads, and clients whose caller-supplied read buffer the reply fills exactly or with 1/4/64 bytes to spare - (most through a second client opened while a first one is open, so the socket's port id differs from the process id) whose NLMSG_ERROR reply, read back with Receive, carries the request as the kernel saw it (length, type, flags, port id, sequence = returned value, payload bytes); (b) N in {2,4,16} goroutines x M sends on one client: per-goroutine increasing, globally distinct, and the recorded {call, return, value} history checked with porcupine against a strictly increasing counter model (direct interval check when porcupine gives up), and a storm of 12 senders beside 6 goroutines whose sends the kernel refuses (distinct and per-goroutine increasing only); (d) datagrams of every length 0..64 and random longer ones, arbitrary and ACK-shaped contents, unicast and multicast from a second user-space netlink socket (NETLINK_ROUTE as root, NETLINK_USERSOCK): Receive must return an error and no message, and a later kernel reply must still be received; (e) AuditClient.Receive over the simulated Netlink with datagrams of every length 0..64 and random longer ones ending at a PROT_NONE page; (f) eight AuditClients, each with its own transport and goroutine, receiving at the same time: each gets the type and payload of its own datagram, and the message returned by the previous call keeps its type and length; (g) a client bound to an otherwise unused multicast group sends NLMSG_NOOP requests while a second socket in the same group listens: it must receive nothing (requests are addressed to the kernel only). Runs under the race detector; ASan in thorough. distinct_nontrivial = distinct frames, spoofed datagrams, parse inputs and sequence histories.",
 		Assumptions: []string{
 			"the running kernel echoes rejected NETLINK_ROUTE requests in NLMSG_ERROR replies (netlink_ack) and delivers user-to-user netlink datagrams for root; if sockets cannot be opened the check is inconclusive, not green",
 			"message types 16..255 are never sent (they are live rtnetlink operations)",
